@@ -22,6 +22,11 @@ CHECKS = {
          "For heights 1..3, rounds 0..1 and every position of the correct node, the puppet proposer applies each of 65 corruptions (every header field, 19 previous-commit corruptions, 13 evidence corruptions, data-section and nil-component corruptions; all unordered pairs at height 2 round 0, thorough: everywhere) to the honest block, re-deriving dependent hashes, and proposes it to the REAL state machine. Oracle: a non-nil prevote/precommit only for blocks that pass the repository's ValidateBlock AND an independent predicate written from the property statement (math/big commit tally); the two oracles must agree on every block; then the other validators vote and the committed block must apply (no panic, no kill request, status advances). Right level: the quantifier is over proposer-constructible blocks, a finite product once fields take boundary values.",
          "Application-level validity is kept true by a trivial in-memory app (consensus-level validation only); 4 equal validators; recover mode never triggered; restart after a failed apply is C13's subject.",
          "5/C02"),
+ "C12": ("model_checking",
+         "exhaustive single-field perturbation of blocks (pair oracle: block hash, part-set header) + explicit-state BFS over all delivery sequences of genuine and forged parts into the real PartSet + exhaustive Merkle proof enumeration",
+         "(A) 42 base blocks (heights 1..3, 0..4 transactions incl. one confidential, 0..2 evidence items, real signed LastCommit) x every single perturbation of every header field, transaction (content, order, duplication), evidence item and LastCommit slot (thorough: all pairs): different content must give a different (Block.Hash, MakePartSet(sz).Header()) pair, equal content an equal pair; Vote.SignBytes injective over all ids. (B) opx BFS over all delivery sequences of the genuine parts and ~35 forgeries per index (bytes, index incl. negative/MaxInt, proof aunts, parts of other blocks/part sizes) into NewPartSetFromHeader, parts travelling through the wire codec, all orders up to 6 (quick) / 8 (thorough) parts; completed sets are read back, decoded and stored/loaded through a real BlockStore. (C) SimpleProof.Verify for all (index,total) <= 9 / 16 with every single-aunt tamper.",
+         "keccak-256 treated as collision-free on the enumerated inputs; confidential inputs (rings) not enumerated; which error value AddPart returns is not judged.",
+         "5/C12"),
  "C16": ("model_checking",
          "exhaustive state x message product on the real reactor + state machine (boundary-value fields, signature modes, wrong channels, raw byte truncation/substitution), worker subprocesses under ulimit -v",
          "11 scripted consensus states (every step of height 1, round 1, height 2) x every hostile message of the alphabet (about 1800 typed messages: each field of Vote/Proposal/BlockPart/state-channel messages at boundary values x 5 signature modes, every message kind on every wrong channel; about 9700 raw byte strings: every truncation and every single-byte substitution from 11 values of 6 valid encodings); thorough adds all ordered pairs of consensus-relevant messages. Each case goes through ConsensusReactor.Receive as the p2p layer delivers it, then whatever was queued through handleMsg, then timeouts. Oracle: no panic or process death in the state machine; invalid messages leave the RoundState digest unchanged.",
